@@ -305,8 +305,9 @@ func c12Check(c *core.Ctx, oracle string, doc any, layers ...any) {
 func buildC12(tier string) *core.Plan {
 	n := 4
 	maxCount := 5
+	innerN, namedMax := 2, 3
 	if tier == "thorough" {
-		n, maxCount = 5, 5
+		n, maxCount, innerN, namedMax = 6, 6, 3, 4
 	}
 	a := gen.Alphabet{Scalars: []any{1, "$repeat", `$"v{$repeat}"`}, Keys: []string{"a", `$"k{$repeat}"`}, MaxList: 2, MaxMap: 2}
 	bodies := gen.Filter(gen.Trees(a, n), func(v any) bool { return gen.IsMap(v) || gen.IsList(v) })
@@ -349,7 +350,7 @@ func buildC12(tier string) *core.Plan {
 				named = append(named, m)
 				return
 			}
-			for v := 0; v <= 3; v++ {
+			for v := 0; v <= namedMax; v++ {
 				cur[ns[k]] = v
 				rec(k+1, cur)
 			}
@@ -381,7 +382,7 @@ func buildC12(tier string) *core.Plan {
 		}}
 
 	// nested: repeats inside lists and maps, under and without a document-level repeat
-	inner := gen.Filter(gen.Trees(a, 2), func(v any) bool { return gen.IsMap(v) })
+	inner := gen.Filter(gen.Trees(a, innerN), func(v any) bool { return gen.IsMap(v) })
 	ni := int64(len(inner))
 	nestedSpace := core.Space{Name: "nested-in-lists-and-maps", N: ni * nall * nall,
 		Desc: func(i int64) any {
@@ -443,9 +444,9 @@ func buildC12(tier string) *core.Plan {
 	return &core.Plan{
 		Spaces: []core.Space{docLevel, namedSpace, nestedSpace, layered, order},
 		Rule: "every body tree up to N nodes whose leaves and keys use $repeat and {$repeat} x every count 0..max and 9 non-integer counts, at document level (map and list roots), nested in lists and maps (with and without an outer repeat), " +
-			"1-3 named counts with every assignment 0..3, and counts overridden by an upper layer; distinct by construction",
+			"1-3 named counts with every assignment 0..named_count_max, and counts overridden by an upper layer; distinct by construction",
 		Assumptions: []string{"differential oracle: eval(D) equals the evaluation of the hand-expanded stream (textual substitution of the index, copies in index order, named products in lexicographic name order)",
 			"not judged: negative counts, $repeat: null (dropped as a null entry), map-level repeats whose keys collide, a key that is the bare variable"},
-		Bounds: map[string]any{"body_nodes": n, "max_count": maxCount, "bodies": len(bodies), "named_assignments": len(named)},
+		Bounds: map[string]any{"body_nodes": n, "max_count": maxCount, "nested_body_nodes": innerN, "named_count_max": namedMax, "bodies": len(bodies), "named_assignments": len(named)},
 	}
 }
